@@ -17,5 +17,6 @@ def run(rep, tier):
     kernels.run_scope(rep, B.STATE_FILES)
     from vf.pyvc import tensors
     tensors.run_tensor_contracts(rep, ["C05"])
+    kernels.run_delegation(rep, ["measure"])
     B.run_b(rep, morecells.measure_cells(tier, common.seed()), ["C05"], explore=True, tier=tier)
     B.run_b(rep, morecells.after_measure_cells(tier, common.seed()), ["C05"], explore=False, tier=tier)
